@@ -262,6 +262,17 @@ func (p *Proc) newShell(env *wire.Env) *readline.Shell {
 		rp := env.RPrompt
 		sh.Prompt.Right(func() string { return rp })
 	}
+	if env.TransientPrompt != "" {
+		tp := env.TransientPrompt
+		sh.Prompt.Transient(func() string { return tp })
+	}
+	if len(env.AppCommands) > 0 {
+		cmds := map[string]func(){}
+		for _, n := range env.AppCommands {
+			cmds[n] = func() {}
+		}
+		sh.Keymap.Register(cmds)
+	}
 	for _, b := range env.Binds {
 		seq := string(b.Seq)
 		if b.Meta {
